@@ -282,7 +282,116 @@ func matrixPrograms() []matrixProg {
 	out = append(out, matrixProg{name: "params", p: mxParams(), wasmOK: true})
 	out = append(out, matrixProg{name: "write-through", p: mxWriteThrough(), wasmOK: true})
 	out = append(out, matrixProg{name: "const-flow", p: mxConstFlow(), wasmOK: true})
+	out = append(out, matrixProg{name: "ranges", p: mxRanges(), wasmOK: true})
 	return out
+}
+
+// mxRanges: stepped and plain range loops `for v in a..b[:s]` / `a..=b[:s]` over six integer
+// types, counting up and down, with small spans and with spans (and span x step products) beyond
+// half of the type's range, the end on and between the visited values, and with the three
+// operands given as literals, as let-bound locals, or through opaque identity functions (so the
+// sign of the step is only known at run time). Every loop prints the values it visits and how many.
+func mxRanges() *gen.Program {
+	p := &gen.Program{Features: map[string]bool{}}
+	var m []gen.Stmt
+	n := 0
+	idf := map[string]*gen.Func{}
+	for _, t := range []*gen.Type{gen.I8, gen.I16, gen.I32, gen.I64, gen.U8, gen.U32} {
+		f := mxIdent(t)
+		idf[t.String()] = f
+		p.Funcs = append(p.Funcs, f)
+	}
+	cnt := &gen.Var{Name: "cnt", T: gen.I32}
+	m = append(m, &gen.Let{Name: "cnt", T: gen.I32, Init: mxLit(gen.I32, 0), Annot: true})
+	loop := func(t *gen.Type, start, end, step int64, hasStep, incl bool, form int) {
+		n++
+		var pre []gen.Stmt
+		opnd := func(tag string, v int64) gen.Expr {
+			switch form {
+			case 1:
+				name := fmt.Sprintf("%s%d", tag, n)
+				pre = append(pre, &gen.Let{Name: name, T: t, Init: mxLit(t, v), Annot: true})
+				return &gen.Var{Name: name, T: t}
+			case 2:
+				return &gen.Call{Fn: idf[t.String()], Args: []gen.Expr{mxLit(t, v)}}
+			}
+			return mxLit(t, v)
+		}
+		fr := &gen.ForRange{Var: fmt.Sprintf("v%d", n), T: t, Lo: opnd("lo", start), Hi: opnd("hi", end), Incl: incl}
+		if hasStep {
+			fr.Step = opnd("st", step)
+		}
+		vv := &gen.Var{Name: fr.Var, T: t}
+		fr.Body = []gen.Stmt{&gen.Print{X: vv}, &gen.Assign{LHS: cnt, Op: "=", RHS: &gen.Bin{Op: "+", L: cnt, R: mxLit(gen.I32, 1), T: gen.I32}}}
+		m = append(m, pre...)
+		m = append(m, fr, &gen.Print{X: cnt})
+	}
+	form := 0
+	for _, t := range []*gen.Type{gen.I8, gen.I16, gen.I32, gen.I64, gen.U8, gen.U32} {
+		bits := uint(t.Bits)
+		var min, max int64
+		if t.Signed {
+			min, max = -(int64(1) << (bits - 1)), (int64(1)<<(bits-1))-1
+		} else {
+			min, max = 0, (int64(1)<<bits)-1
+		}
+		// plain loops (no step)
+		loop(t, 2, 6, 1, false, false, form%3)
+		form++
+		loop(t, 2, 6, 1, false, true, form%3)
+		form++
+		loop(t, 5, 5, 1, false, false, form%3) // empty
+		form++
+		for _, up := range []bool{true, false} {
+			if !up && !t.Signed {
+				continue
+			}
+			for _, large := range []bool{false, true} {
+				for _, incl := range []bool{false, true} {
+					for _, endOn := range []bool{true, false} {
+						k := int64(3) // iterations
+						step := int64(3)
+						start := int64(1)
+						if large {
+							step = (max/2 - min/2) / (k + 1) // k*step exceeds a quarter of the range; (end-start)*step overflows
+							start = min + 5
+							if !up {
+								start = max - 5
+							}
+						} else if !up {
+							start = 20
+						}
+						if !up {
+							step = -step
+						}
+						last := start + step*(k-1)
+						end := last
+						switch {
+						case incl && endOn:
+						case incl && !endOn:
+							if up {
+								end = last + 1
+							} else {
+								end = last - 1
+							}
+						case !incl && endOn: // exclusive end exactly on the next value: it is not visited
+							end = last + step
+						default:
+							if up {
+								end = last + 1
+							} else {
+								end = last - 1
+							}
+						}
+						loop(t, start, end, step, true, incl, form%3)
+						form++
+					}
+				}
+			}
+		}
+	}
+	p.Main = m
+	return p
 }
 
 // mxWriteThrough: writes and reads through references where the static type of the stored value
